@@ -143,6 +143,12 @@ func applyIgnore(bt *gen.Built, lineID int, c ignCase, code string, rng *base.Ra
 			// with a doc comment the lead simply becomes the first line of the doc group
 			desc += "+doc"
 		}
+	case "package-clause-trailing":
+		// the comment trails the package clause: its scope is that line only, nothing is suppressed
+		if c.where != "in" || file.PkgTrail != nil {
+			return false, ""
+		}
+		file.PkgTrail = ig
 	case "file":
 		switch c.where {
 		case "in":
@@ -185,7 +191,7 @@ func checkC07(replay string) {
 		p  string
 		ws []string
 	}{{"trailing", []string{"in", "prev", "next"}}, {"lead-stmt", []string{"in", "prev", "next"}}, {"lead-compound", []string{"in"}},
-		{"lead-decl", []string{"in", "prev", "next"}}, {"lead-decl-gap", []string{"in", "next"}}, {"file", []string{"in", "other-file"}}} {
+		{"lead-decl", []string{"in", "prev", "next"}}, {"lead-decl-gap", []string{"in", "next"}}, {"file", []string{"in", "other-file"}}, {"package-clause-trailing", []string{"in"}}} {
 		for _, w := range pl.ws {
 			placements = append(placements, ignCase{placement: pl.p, where: w})
 		}
